@@ -1,14 +1,16 @@
 # run plan + floors for C10 (loaded by checkcfg.py; helpers e1/e2 are in scope)
 #
 # parts of event::verif::c10::run (harness/daemon/c10.rs):
-#   part=l1x  L1, exhaustive: every sequence of `depth` letters over a 16-letter alphabet
+#   part=l1x  L1, exhaustive: every sequence of `depth` letters over a 19-letter alphabet
 #             {drop: tcp / hard reset / cease / UPDATE error / admin; reconnect: fails / same caps /
 #              GR v4 only / no GR; re-announce; EOR v4; EOR v6; restart timer fires; LLGR timer v4 / v6
-#              fires; forced down} after a prelude (session up, 4 routes incl. NO_LLGR and LLGR_STALE
+#              fires; forced down; late restart-timer handler; late LLGR-timer handler v4 / v6} after a prelude (session up, 4 routes incl. NO_LLGR and LLGR_STALE
 #              ones, EOR), for 6 GR/LLGR configurations; letters that do not apply in the current
 #              state prune the branch; shard i of `nshards` takes the (config, 1st, 2nd letter) items = i mod nshards
 #   part=l1r  L1, random histories (up to 24 ops, all drop reasons incl. hold-timer expiry) + directed
 #             GR->LLGR->reconnect->EOR cycles
+#             and "late handler" cycles (the expiry handler of a cancelled restart / LLGR timer runs at a later point:
+#             after the reconnect, between re-announcements, after EOR, after a second drop, after the next reconnect)
 #   part=l2   L2, the same generators against accept_connection + PeerSession::run over loopback TCP
 #             (harness = remote speaker)
 # Every l1 shard first calibrates its replica of the session_loop tail against L2 (see c10.rs `Replica`).
@@ -28,6 +30,8 @@ CFG = dict(
               "I7: no NO_LLGR path of the peer while its LLGR period runs",
               "no panic"],
     assumptions=["timer expiry is an event of the history (restart time 4095 s, LLGR time 10^6 s advertised; the timers are fired through PeerContext's one-shot senders)",
+                 "a timer that was cancelled (not fired) may still have its expiry handler in flight (the task had left timeout() when the sender was dropped): "
+                 "gr_restart_timer_expired / llgr_timer_expired may run once per cancelled timer at any later step; only the standing invariants I1, I5, I7 are judged at that step",
                  "quiescence = session task joined / sentinel-prefix barrier passed, and number of live timer tasks == number of armed slots",
                  "eligibility is decided from the statement: TCP failure must enter helper mode; hard reset, admin shutdown (API shutdown/reset, BFD), "
                  "message-header/OPEN/UPDATE/FSM-error NOTIFICATIONs (sent or received) and any NOTIFICATION without negotiated N-bit must not; "
@@ -53,10 +57,16 @@ CFG = dict(
                          "drop:non-cease-error": 1200, "drop:non-cease-error-nbit": 240,
                          "drop:notification-no-nbit": 1600, "drop:cease-nbit": 800,
                          "established:after-retention:gr-renegotiated": 2400, "established:after-retention:no-gr": 2000,
-                         "obs:stale-paths-seen": 12000, "obs:llgr-stale-paths-seen": 3000}),
+                         "obs:stale-paths-seen": 12000, "obs:llgr-stale-paths-seen": 3000,
+                         # late timer handlers (gr_restart_timer_expired / llgr_timer_expired run after their timer was cancelled)
+                         "op:late-restart-expiry": 1600, "op:late-llgr-expiry": 450,
+                         "late:restart:in-reconnected": 700, "late:restart:in-idle": 800, "late:restart:in-restarting": 80,
+                         "late:restart:in-llgr-staling": 5, "late:restart:with-stale-routes": 800,
+                         "late:llgr:in-reconnected": 150, "late:llgr:in-idle": 280, "late:llgr:in-llgr-staling": 5,
+                         "l2:profile:late-cycle": 200}),
     # l2 first: the driver keeps the first witness per signature, and an end-to-end witness is the most convincing one
     quick=[e2("l2", _T, 4, 60, part="l2", count=1500),
-           e2("l1x", _T, 8, 120, part="l1x", depth=5, nshards=8),
+           e2("l1x", _T, 12, 120, part="l1x", depth=5, nshards=12),
            e2("l1r", _T, 2, 60, part="l1r", count=8000)],
     thorough=[e2("l2", _T, 16, 300, part="l2", count=5000),
               e2("l1x", _T, 16, 900, part="l1x", depth=6, nshards=16),
